@@ -52,13 +52,18 @@ def selftest_records(records):
     bad_server = [r for r in records if r["scen"] in ("WrongKey", "Expired", "CorruptSKXSig") and not r["obs"]["cdone"]]
     bad_client = [r for r in records if r["scen"] == "Trusted" and r["cscen"] == "ClientUntrusted" and r["auth"] == 4 and not r["obs"]["sdone"]]
     good = [r for r in records if r["scen"] == "Trusted" and r["cscen"] == "ClientTrusted" and r["obs"]["cdone"] and r["obs"]["sdone"]]
-    if not bad_server or not bad_client or not good:
-        raise Machinery("selftest: missing base records")
-    a = copy.deepcopy(bad_server[0]); a["id"] = -1; a["obs"]["cdone"] = True
-    b = copy.deepcopy(bad_client[0]); b["id"] = -2; b["obs"]["sdone"] = True
-    c = copy.deepcopy(good[0]); c["id"] = -3; c["obs"]["cdone"] = False
-    d = copy.deepcopy(good[0]); d["id"] = -4; d["std"]["server_chain_ok"] = False
-    return [a, b, c, d]
+    out = []
+    if bad_server:
+        a = copy.deepcopy(bad_server[0]); a["id"] = -1; a["obs"]["cdone"] = True
+        out.append(a)
+    if bad_client:
+        b = copy.deepcopy(bad_client[0]); b["id"] = -2; b["obs"]["sdone"] = True
+        out.append(b)
+    if good:
+        c = copy.deepcopy(good[0]); c["id"] = -3; c["obs"]["cdone"] = False
+        d = copy.deepcopy(good[0]); d["id"] = -4; d["std"]["server_chain_ok"] = False
+        out += [c, d]
+    return out
 
 
 def run(ctx):
@@ -90,6 +95,10 @@ def run(ctx):
     mism = [f for _, f in rejects if f["kind"] == "harness-pki-mismatch"]
     if mism:
         raise Machinery("the standard library disagrees with %d scenario concretisations, e.g. %s" % (len(mism), mism[0]))
+    if len(st_recs) < 4 and not rejects:
+        raise Machinery("selftest: missing base records and nothing rejected (vacuous)")
+    cands = to_cands(allrecs, rejects)
+    ctx.candidates(binary, cands, reproduce=T.BatchReproducer(ctx, "C27", cands, lambda cs: run_cases(ctx, binary, cs, "repro")))
 
     fired = {}
     for r in recs:
@@ -118,8 +127,6 @@ def run(ctx):
                        "seeded random scenarios" % ("every server scenario without client authentication and every (ClientAuthType, client "
                                                     "scenario) pair with an authentic server on 16 combinations" if quick else "full product on 24 combinations"))
     ctx.log("C27 observations: %s" % json.dumps(cov))
-    cands = to_cands(allrecs, rejects)
-    ctx.candidates(binary, cands, reproduce=T.BatchReproducer(ctx, "C27", cands, lambda cs: run_cases(ctx, binary, cs, "repro")))
 
 
 def replay(ctx, path):
